@@ -1,9 +1,94 @@
 /-
   C14 — root elements of a component instance, and only they, carry its render id.
-  Property theorems only.
+  Property theorems only.  `addRootAttrs` is `set_html_attributes(root_attributes=…)` on the token
+  form; statements hold for every well-nested token list, at any nesting depth.
 -/
 import Djc.Proofs.Render
 namespace Djc.Props.C14
 open Djc.Tpl Djc.Render Djc.Proofs.Render
+
+/-- well-nested output: what templates built from element nodes produce -/
+inductive Balanced : List Tok → Prop
+  | nil : Balanced []
+  | text (s : Str) {rest} : Balanced rest → Balanced (.text s :: rest)
+  | hole (i : Nat) (a : List Str) {rest} : Balanced rest → Balanced (.hole i a :: rest)
+  | marker (c : Str) (i : Nat) {rest} : Balanced rest → Balanced (.marker c i :: rest)
+  | elem (t : Str) (a : List Str) {inner rest} : Balanced inner → Balanced rest →
+      Balanced (.opn t a :: (inner ++ .cls t :: rest))
+
+/-- below the top level nothing is touched: a well-nested stretch passes through unchanged, at
+every depth ≥ 1 -/
+theorem nested_untouched (attrs : List Str) {xs : List Tok} (hb : Balanced xs) :
+    ∀ (d : Nat) (ys : List Tok),
+      addRootAttrsAux attrs (d + 1) (xs ++ ys) = xs ++ addRootAttrsAux attrs (d + 1) ys := by
+  induction hb with
+  | nil => intro d ys; rfl
+  | text s _ ih => intro d ys; simp [addRootAttrsAux, ih]
+  | hole i a _ ih => intro d ys; simp [addRootAttrsAux, ih]
+  | marker c i _ ih => intro d ys; simp [addRootAttrsAux, ih]
+  | elem t a _ _ ih1 ih2 =>
+    intro d ys
+    simp only [List.cons_append, List.append_assoc, addRootAttrsAux]
+    rw [if_neg (by omega)]
+    rw [ih1 (d + 1) _]
+    simp only [addRootAttrsAux, Nat.add_sub_cancel]
+    rw [ih2 d ys]
+
+/-- **A root element gets the id; nothing inside it does.** -/
+theorem root_element_tagged (attrs : List Str) (t : Str) (a : List Str) {inner : List Tok}
+    (hb : Balanced inner) (rest : List Tok) :
+    addRootAttrs attrs (.opn t a :: (inner ++ .cls t :: rest)) =
+      .opn t (a ++ attrs) :: (inner ++ .cls t :: addRootAttrs attrs rest) := by
+  unfold addRootAttrs
+  simp only [addRootAttrsAux, if_true]
+  rw [nested_untouched attrs hb 0 _]
+  simp [addRootAttrsAux]
+
+/-- text, markers at the top level are untouched; a placeholder at the top level is tagged (the
+attributes are handed to the child whose output replaces it) -/
+theorem root_text_untouched (attrs : List Str) (s : Str) (rest : List Tok) :
+    addRootAttrs attrs (.text s :: rest) = .text s :: addRootAttrs attrs rest := rfl
+
+theorem root_marker_untouched (attrs : List Str) (c : Str) (i : Nat) (rest : List Tok) :
+    addRootAttrs attrs (.marker c i :: rest) = .marker c i :: addRootAttrs attrs rest := rfl
+
+theorem root_placeholder_tagged (attrs : List Str) (i : Nat) (a : List Str) (rest : List Tok) :
+    addRootAttrs attrs (.hole i a :: rest) = .hole i (a ++ attrs) :: addRootAttrs attrs rest := by
+  simp [addRootAttrs, addRootAttrsAux]
+
+/-- **Hand-over.** The attributes recorded for child placeholders: the parent's attributes for
+a placeholder at the top level, none for a placeholder inside an element. -/
+theorem nested_placeholders_get_nothing (attrs : List Str) {xs : List Tok} (hb : Balanced xs) :
+    ∀ (d : Nat) (ys : List Tok),
+      rootHolesAux attrs (d + 1) (xs ++ ys) =
+        (xs.filterMap (fun t => match t with | .hole i _ => some (i, ([] : List Str)) | _ => none)) ++
+          rootHolesAux attrs (d + 1) ys := by
+  induction hb with
+  | nil => intro d ys; rfl
+  | text s _ ih => intro d ys; simp [rootHolesAux, ih]
+  | hole i a _ ih => intro d ys; simp [rootHolesAux, ih]
+  | marker c i _ ih => intro d ys; simp [rootHolesAux, ih]
+  | elem t a _ _ ih1 ih2 =>
+    intro d ys
+    simp only [List.cons_append, List.append_assoc, rootHolesAux]
+    rw [ih1 (d + 1) _]
+    simp only [rootHolesAux, Nat.add_sub_cancel]
+    rw [ih2 d ys]
+    simp [List.filterMap_append]
+
+theorem root_placeholder_handed_over (attrs : List Str) (i : Nat) (a : List Str) (rest : List Tok) :
+    rootHoles attrs (.hole i a :: rest) = (i, attrs) :: rootHoles attrs rest := by
+  simp [rootHoles, rootHolesAux]
+
+/-- **Ids are distinct**: every `gen_id` call returns a number no earlier call returned. -/
+theorem gen_id_fresh (w : World) :
+    (genId.run.run w) = (.ok w.nextId, { w with nextId := w.nextId + 1 }) := rfl
+
+/-- non-vacuity: `<div><p>x</p></div>t<span></span>` -/
+example : addRootAttrs ["i".toList]
+    [.opn "div".toList [], .opn "p".toList [], .text "x".toList, .cls "p".toList, .cls "div".toList, .text "t".toList,
+     .opn "span".toList [], .cls "span".toList] =
+    [.opn "div".toList ["i".toList], .opn "p".toList [], .text "x".toList, .cls "p".toList, .cls "div".toList, .text "t".toList,
+     .opn "span".toList ["i".toList], .cls "span".toList] := by decide
 
 end Djc.Props.C14
